@@ -8,4 +8,5 @@ let () =
   | _ :: "vec" :: _ -> D_vec.run ()
   | _ :: "seq" :: _ -> D_seq.run ()
   | _ :: "hashtbl" :: _ -> D_hashtbl.run ()
+  | _ :: "listtbl" :: _ -> D_listtbl.run ()
   | _ -> prerr_endline "usage: driver <area> < ops"; exit 2
